@@ -534,6 +534,7 @@ class SimStream(object):
         self.written = bytearray()   # everything ever written (for frame-level oracles)
         self.nwrites = 0
         self.in_pump = False
+        self.read_log = []           # (thread name or None, nbytes) per completed read
 
     # -- Stream interface
     @property
@@ -617,6 +618,8 @@ class SimStream(object):
             raise EOFError("connection closed by peer")
         data = bytes(self.inbox[:count])
         del self.inbox[:count]
+        cur = s.current()
+        self.read_log.append((cur.name if cur is not None else None, count))
         return data
 
     def write(self, data):
